@@ -18,7 +18,9 @@ EPS = 2.220446049250313e-16
 #  * hit point on the incident ray, and model vs implementation positions / directions: 1e-9 (relative to max(1, |value|)) plus
 #    16 eps * (distance from the ray origin to the hit point) when the ray is skew to the local axis or the frame is tilted --
 #    a ray given by (origin, direction) is itself only defined to an ulp of that distance; a ray exactly along the local axis
-#    of an untilted surface (the documented "from infinity" form P = [x, y, -1e99], S = [0, 0, 1]) gets NO allowance.
+#    of an untilted surface (the documented "from infinity" form P = [x, y, -1e99], S = [0, 0, 1]) gets NO allowance;
+#    for directions the allowance is multiplied by (1 + 4|c|) / max(0.05, cos of the larger angle to the normal): a position
+#    uncertainty dp becomes a direction uncertainty ~ dp * curvature / cos.
 def _far_allowance(Pin, Pout, Sin, Rm):
     exact_axis = Rm is None and Sin[0] == 0 and Sin[1] == 0
     return 0.0 if exact_axis else 16 * EPS * float(np.linalg.norm(np.asarray(Pout) - np.asarray(Pin)))
@@ -778,8 +780,13 @@ def correspondence(ctx):
                 for j in range(k):
                     # far origins: see the tolerance rule at the top of this file; the allowance of an earlier leg carries on
                     allow += _far_allowance(ph[j], ph[j + 1], sh[j], mats[j]) / TOL
+                    # a position uncertainty dp turns into a direction uncertainty ~ dp * curvature / cos(angle to the normal)
+                    rh = model[j]['r'] / np.linalg.norm(model[j]['r'])
+                    cosmin = max(0.05, min(abs(float(model[j]['Sloc'] @ rh)), abs(float(model[j]['Sout'] @ rh))))
+                    shp = specs[j]['shape']
+                    allow_dir = allow * (1 + 4 * abs(shp[1] if len(shp) > 1 else 0.0)) / cosmin
                     if not (_cmp(ph[j + 1], model[j]['Pg'], float(np.abs(model[j]['Pg']).max()) + allow)
-                            and _cmp(sh[j + 1], model[j]['Sg'], 1.0 + allow)):
+                            and _cmp(sh[j + 1], model[j]['Sg'], 1.0 + allow_dir)):
                         ctx.disagree('trace', case, {'surface': j, 'P': ph[j + 1].tolist(), 'S': sh[j + 1].tolist()},
                                      {'P': model[j]['Pg'].tolist(), 'S': model[j]['Sg'].tolist()})
                         break
